@@ -60,14 +60,15 @@ def tokenize(src):
     return [m.group(0) for m in TOK_RE.finditer(src)]
 
 
-def mutants(src, replacements=True):
+def mutants(src, replacements=True, repl=None):
+    repl = repl or REPL
     toks = tokenize(src)
     idx = [i for i, t in enumerate(toks) if not t.isspace() and not t.startswith('//') and not t.startswith('/*')]
     for i in idx:
         yield ''.join(toks[:i] + toks[i + 1:])                      # deletion
         yield ''.join(toks[:i] + [toks[i], ' ', toks[i]] + toks[i + 1:])   # duplication
         if replacements:
-            for r in REPL:
+            for r in repl:
                 if r != toks[i]:
                     yield ''.join(toks[:i] + [r] + toks[i + 1:])
     for a, b in zip(idx, idx[1:]):
